@@ -204,9 +204,9 @@ theorem countCheck_rel (c1 : NS) (g1 : Spec.GV) (i1 : Inv c1 g1) (q : Int) (hq :
       simp [countCheck, shiftCountY, h1ty, Ty.untyped, Ty.isInt, Ty.rtype, BT.isInt, h1rv, hv, hle]
 
 theorem checkShiftY_eq (c0 c1 : NS) :
-    checkShiftY F0 c0 c1 = (shiftLeftY c0).bind fun c0' => (countCheck c1).bind fun c1' => .ok (c0', c1') := by
+    checkShiftY F0 c0 c1 = (shiftLeftY F0 c0).bind fun c0' => (countCheck c1).bind fun c1' => .ok (c0', c1') := by
   simp only [checkShiftY, countCheck, F0_chk, Expected.C03.checkFacts]
-  cases shiftLeftY c0 <;> simp only [Res.bind]
+  cases shiftLeftY F0 c0 <;> simp only [Res.bind]
   cases shiftCountY F0 c1 <;> simp only [Res.bind]
   rename_i a b
   cases vUint b.rv <;> simp only [Res.bind]
@@ -226,7 +226,7 @@ theorem shiftNode_rel (env : Env) (a : Act) (ha : isShift a = true) (c0 c1 : NS)
   have hsa : isShiftAct a = true := by simpa [isShiftAct, isShift] using ha
   have hcmp : isCmpAct a = false := by cases a <;> simp [isShift] at ha <;> rfl
   -- the left operand always passes `check.shift` in the integer fragment
-  have hleft : ∃ c0', shiftLeftY c0 = .ok c0' ∧ c0'.ty = c0.ty ∧ c0'.rv = c0.rv ∧ c0'.loose = c0.loose := by
+  have hleft : ∃ c0', shiftLeftY F0 c0 = .ok c0' ∧ c0'.ty = c0.ty ∧ c0'.rv = c0.rv ∧ c0'.loose = c0.loose := by
     rcases i0.shape with ⟨ka, v, hka, rfl, h0ty, h0rv⟩ | ⟨k, v, rfl, h0ty, h0rv, hv⟩
     · exact ⟨{ c0 with rv := .c (.int v) }, by simp [shiftLeftY, h0ty, h0rv, Ty.untyped, CV.toInt], rfl, h0rv.symm, rfl⟩
     · exact ⟨c0, by simp [shiftLeftY, h0ty, h0rv, Ty.untyped, Ty.isInt, Ty.rtype, BT.isInt], rfl, rfl, rfl⟩
